@@ -6,7 +6,7 @@
 #       contract that lets it *short-circuit* hash() to an arbitrary symbolic int; a native dict then
 #       rejects the user-defined __hash__ of jaqalpaq's Register/NamedQubit with
 #       "TypeError: __hash__ method should return an integer", a tool artefact, not behaviour)
-#   set(<native list/tuple/set/range>) -> a native set of the realised elements.  CrossHair's own
+#   set(<iterable>) -> a native set of the realised elements (the iterable is iterated under tracing).  CrossHair's own
 #       constructor patch returns a shell object on which a native set's in-place `tgt |= src`
 #       is not in place (measured: `u = d[k]; u |= set((0,))` leaves d[k] empty under tracing,
 #       which made UsedQubitIndicesVisitor.merge_into lose every qubit).  Elements of a set are
@@ -42,16 +42,18 @@ def _install():
                 # plain builtins only: an object with a user-defined __int__ (jaqalpaq's Constant) may
                 # hold symbolic state and must be converted under tracing
                 return int(*a, **k)
-            elif len(a) == 1 and not k and isinstance(getattr(type(a[0]), "__int__", None), types.FunctionType):
+            elif (len(a) == 1 and not k and not isinstance(a[0], CrossHairValue)
+                  and isinstance(getattr(type(a[0]), "__int__", None), types.FunctionType)):
                 # an object with a Python-level __int__ (jaqalpaq's Constant): run it under tracing, its
                 # fields may be symbolic (CrossHair's own patch would call it natively)
                 mode = 2
+                fn = type(a[0]).__int__
             else:
                 mode = 0
         if mode == 1:
             return a[0].__int__()
         if mode == 2:
-            return type(a[0]).__int__(a[0])
+            return fn(a[0])
         return _orig_int(*a, **k)
 
     _PATCH_REGISTRATIONS[int] = _int2
@@ -72,14 +74,12 @@ def _install():
     _orig_set = _PATCH_REGISTRATIONS.get(set)
 
     def _set2(*a):
+        if len(a) != 1:
+            with NoTracing():
+                return set(*a)
+        items = list(a[0])          # iterate under tracing (the iterable may be symbolic, e.g. range(n))
         with NoTracing():
-            if len(a) == 0:
-                return set()
-            if len(a) == 1 and type(a[0]) in (list, tuple, set, frozenset, range):
-                return set(deep_realize(a[0]))
-        if _orig_set is None:
-            return set(*a)
-        return _orig_set(*a)
+            return set(deep_realize(items))
 
     _PATCH_REGISTRATIONS[set] = _set2
 
